@@ -7,7 +7,7 @@ selftest/results.tsv:  mutant  check  tier  seed  suite  exit  signatures
 
 usage: run_all.py [--tier quick] [--workers 4] [--seed 1] [--only substring] [--seeded]
 """
-import argparse, glob, json, os, queue, shutil, subprocess, sys, threading, time
+import argparse, glob, json, os, queue, re, shutil, subprocess, sys, threading, time
 
 ap = argparse.ArgumentParser()
 ap.add_argument("--tier", default="quick")
@@ -16,6 +16,7 @@ ap.add_argument("--seed", default="1")
 ap.add_argument("--only", default="")
 ap.add_argument("--seeded", action="store_true")
 ap.add_argument("--skip-suite", action="store_true")
+ap.add_argument("--only-re", default="", help="regex the name must match")
 ap.add_argument("--skip", default="", help="comma separated substrings to leave out")
 args = ap.parse_args()
 
@@ -30,7 +31,7 @@ if args.seeded:
         d = os.path.dirname(meta)
         mj = json.load(open(meta))
         name = "seeded:" + os.path.basename(d)
-        if args.only in name and not any(x and x in name for x in args.skip.split(",")):
+        if args.only in name and re.search(args.only_re, name) and not any(x and x in name for x in args.skip.split(",")):
             jobs.put((name, os.path.join(d, "patch.diff"), mj.get("checks") or [mj["property"]]))
 else:
     for f in sorted(glob.glob(f"{ROOT}/selftest/mutants/*.diff")):
@@ -45,8 +46,8 @@ def sh(cmd, **kw):
     return subprocess.run(cmd, stdout=subprocess.PIPE, stderr=subprocess.STDOUT, text=True, **kw)
 
 def worker(k):
-    wt = f"/tmp/mut-wt-{k}"
-    base = f"/tmp/mut-h-{k}"
+    wt = f"/tmp/mut-wt-{os.getpid()}-{k}"
+    base = f"/tmp/mut-h-{os.getpid()}-{k}"
     sh(["git", "-C", "/repo", "worktree", "remove", "--force", wt])
     shutil.rmtree(base, ignore_errors=True)
     r = sh(["git", "-C", "/repo", "worktree", "add", "--detach", wt, "HEAD"])
